@@ -114,6 +114,66 @@ def _impl_struct(rho):
     return " ".join(toks)
 
 
+def _graph_lines(psi, ttno, names):
+    inv = {v: k for k, v in names.items()}
+    n = len(names)
+
+    def kids(ttn, i):
+        return ",".join(str(inv[c]) for c in ttn.nodes[names[i]].children) or "-"
+    root = inv[psi.root_id]
+    return [f"C16 trace {root} " + " ".join(f"{i}:{kids(psi, i)};-" for i in range(n)),
+            f"C16 ttno {root} " + " ".join(f"{i}:{kids(psi, i)};{kids(ttno, i)}" for i in range(n))]
+
+
+def _graph_check(ctx, case, tag, rho, psi, ttno, names, mo_trace, mo_ttno):
+    from harness.props.c04 import _einsum_from_model
+    inv = {v: k for k, v in names.items()}
+    num = {ROOT_ID: 0}
+    for nm, i in inv.items():
+        num[nm + "_ket"] = 2 * i + 1
+        num[nm + "_bra"] = 2 * i + 2
+    operands = []
+    for nid, nd in rho.nodes.items():
+        if nid not in num:
+            return                      # unknown identifier: reported by the structure comparison
+        k = num[nid]
+        t = rho.tensors[nid]
+        nbs = ([] if nd.parent is None else [nd.parent]) + list(nd.children)
+        if k == 0:
+            labs = ["BK0" if num[c] % 2 == 1 else "BB0" for c in nbs]
+            operands.append((t.reshape(t.shape[:-1]), labs))        # the trivial open leg is indexed away
+        elif k % 2 == 1:
+            operands.append((t, [f"gK{k}_{num[x]}" for x in nbs] + [f"gKP{k}"]))
+        else:       # the legs of the bra copy are named after the ket identifiers
+            operands.append((t, [f"gB{k - 1}_{max(num[x] - 1, 0)}" for x in nbs] + [f"gBP{k - 1}"]))
+    op_operands = []
+    for nid, nd in ttno.nodes.items():
+        i = inv[nid]
+        nbs = ([] if nd.parent is None else [nd.parent]) + list(nd.children)
+        k = 2 * i + 1
+        op_operands.append((ttno.tensors[nid], [f"gO{k}_{2 * inv[x] + 1}" for x in nbs] + [f"gOO{k}", f"gOI{k}"]))
+    for what, mo, ops, fn in (("trace", mo_trace, operands, lambda: rho.trace()),
+                              ("ttno", mo_ttno, operands + op_operands, lambda: rho.ttno_expectation_value(ttno))):
+        ctx.tally("graph", what)
+        if not mo.startswith("legs |") and mo != "legs | binds":
+            ctx.corr_fail(case, f"{tag} {what}: the model leaves free legs / fails: [{mo[:200]}]")
+            continue
+        ref, prob = _einsum_from_model(mo, ops)
+        if prob:
+            ctx.corr_fail(case, f"{tag} {what}: {prob}")
+            continue
+        try:
+            got = complex(fn())
+        except Exception:               # noqa: BLE001  (reported by the oracle)
+            continue
+        scale = 1.0
+        for arr, _ in ops:
+            scale *= max(float(np.linalg.norm(arr)), 1e-300)
+        if abs(got - complex(ref)) > 1e-9 * max(abs(complex(ref)), 1e-6 * scale):
+            ctx.corr_fail(case, f"{tag} {what}: library {got!r} differs from the contraction over the model's global "
+                                f"binding list {complex(ref)!r}")
+
+
 def _hex(s):
     return s.encode().hex() or "-"
 
@@ -158,13 +218,17 @@ def _case(ctx, case, model_out=None):
     # ---- stage B: structure and contraction-order filter against the model
     impl_struct = _impl_struct(rho)
     impl_order = " ".join(_hex(x) for x in ttndo_contraction_order(rho))
-    lines = [_struct_line(psi, ROOT_ID), _order_line(rho)]
+    lines = [_struct_line(psi, ROOT_ID), _order_line(rho)] + _graph_lines(psi, ttno, names)
     mo = model_out if model_out is not None else ctx.lean.batch(lines)
     ctx.corr_cases += 1
     if mo[0] != impl_struct:
         ctx.corr_fail(case, f"{tag} structure: impl=[{impl_struct}] model=[{mo[0]}]")
     if mo[1] != (impl_order or "-"):
         ctx.corr_fail(case, f"{tag} contraction order filter: impl=[{impl_order}] model=[{mo[1]}]")
+    # ---- stage B (graph): the model's global binding list of trace_ttndo / ttndo_ttno_expectation_value,
+    #      evaluated by einsum on the real tensors, against the library's values
+    if style != "ket" or True:
+        _graph_check(ctx, case, tag, rho, psi, ttno, names, mo[2], mo[3])
     # ---- the TTNDO itself: well-formed, = psi (x) conj(psi), padding
     wf = dense.well_formed(rho)
     if wf:
@@ -250,9 +314,9 @@ def _model_lines(case):
     """The two protocol lines of a case (None when the construction itself fails: reported by _case)."""
     from pytreenet.ttns.ttndo import from_ttns
     try:
-        _, _, psi, _, names = _make(case)
+        _, _, psi, ttno, names = _make(case)
         rho = from_ttns(psi, root_id=ROOT_ID, root_bond_dim=case["rdim"])
-        return [_struct_line(psi, ROOT_ID), _order_line(rho)]
+        return [_struct_line(psi, ROOT_ID), _order_line(rho)] + _graph_lines(psi, ttno, names)
     except Exception:           # noqa: BLE001
         return None
 
@@ -276,7 +340,7 @@ def run(ctx):
     for i, c in enumerate(cases):
         if ctx.time_left() < 0:
             break
-        _case(ctx, c, outs[owner[i]:owner[i] + 2] if i in owner else None)
+        _case(ctx, c, outs[owner[i]:owner[i] + 4] if i in owner else None)
 
 
 def run_case(ctx, case):
